@@ -100,7 +100,7 @@ def build(kind, parent, rank, i, width, named, objs, clf):
     parts, w, used = [], 0, set()
     names = ["a", "b", "c", "d"]
     for r, c in enumerate(cs):
-        cols = [r % width] if width == 1 else sorted({r % width, (r + 1) % width})
+        cols = [r % width] if width == 1 or (i + r) % 3 == 0 else sorted({r % width, (r + 1) % width})
         used.update(cols)
         o, wc = build(kind, parent, rank, c, len(cols), False, objs, clf)
         parts.append(("c%d" % c, o, [names[j] for j in cols] if named else cols))
@@ -154,6 +154,8 @@ def parse_dot(text):
                     for part in label.split("|"):
                         fm = re.fullmatch(r"<(\w+)> (.*)", part)
                         assert fm, "record field without a port: %r" % part
+                        # { } | < > are reserved in record labels and a field needs a text (graphviz: 'bad label format')
+                        assert fm.group(2).strip() and not re.search(r"[{}<>|]", fm.group(2)), "bad record field text: %r" % part
                         fields.append(fm.group(1))
                         labels.append(fm.group(2))
                 nodes.append(dict(id=ident, shape=shape, fields=fields, labels=labels, label=label if shape != "record" else ""))
@@ -183,26 +185,27 @@ class ArrIds:
         return len(self.seen) - 1
 
 
-def observe(tid, case, variant):
+def observe(tid, case, variant, width=None):
     from mlinsights.helpers.pipeline import enumerate_pipeline_models, alter_pipeline_for_debugging
     from mlinsights.plotting import pipeline2str, pipeline2dot
     kind, parent, rank = case["kind"], case["parent"], case["rank"]
     schema = ["frame", "array", "names"][variant % 3]
     clf = [True, False, 2, 3][variant % 4]        # classifier, regressor, and both again as predictor + transformer
     named = schema == "frame" and kind[0] in ("colt", "pipe")
-    cols = ["a", "b", "c"]
-    Xn = numpy.array([[1.0, 2.0, 3.0], [4.0, 6.0, 5.0], [7.0, 9.0, 8.0], [0.0, 2.0, 1.0]])
+    W = width or [3, 1, 3, 2][(variant // 12) % 4]          # number of input columns (a single named column too)
+    cols = ["a", "b", "c"][:W]
+    Xn = numpy.array([[1.0, 2.0, 3.0], [4.0, 6.0, 5.0], [7.0, 9.0, 8.0], [0.0, 2.0, 1.0]])[:, :W]
     X = pandas.DataFrame(Xn, columns=cols) if schema == "frame" else Xn
     y = numpy.array([0, 1, 0, 1])
-    t = dict(id=tid, kind=kind, parent=parent, rank=rank, columns=cols if schema != "array" else ["X0", "X1", "X2"],
-             site=SITE_E, sig="schema=%s root=%s" % (schema, kind[0]), has_debug=False, has_dot=False,
+    t = dict(id=tid, kind=kind, parent=parent, rank=rank, columns=cols if schema != "array" else ["X0", "X1", "X2"][:W],
+             site=SITE_E, sig="schema=%s root=%s cols=%d" % (schema, kind[0], W), has_debug=False, has_dot=False,
              debug=[dict(seen=False, inid=-1, outid=-1, consistent=True) for _ in kind], same_output=True, second_alter_refused=True,
              dot=dict(parsed=True, err="", nodes=[], edges=[]))
     objs, objs2 = {}, {}
     with warnings.catch_warnings():
         warnings.simplefilter("ignore")
-        pipe, _ = build(kind, parent, rank, 1, 3, named, objs, clf)
-        ref, _ = build(kind, parent, rank, 1, 3, named, objs2, clf)
+        pipe, _ = build(kind, parent, rank, 1, W, named, objs, clf)
+        ref, _ = build(kind, parent, rank, 1, W, named, objs2, clf)
         if pipe == "passthrough":
             return None
         method = "predict" if "pred" in kind else "transform"
@@ -227,6 +230,12 @@ def observe(tid, case, variant):
             alter_pipeline_for_debugging(pipe)
             after = getattr(pipe, method)(X)
             t["same_output"] = bool(numpy.asarray(before).shape == numpy.asarray(after).shape and numpy.array_equal(before, after))
+            if (variant // 6) % 2:
+                # the caller's buffer is refilled in place and pushed through again: the records below are those of the LAST call
+                X[:] = Xn[::-1] * 2 + 1
+                before, after = getattr(ref, method)(X), getattr(pipe, method)(X)
+                t["same_output"] = bool(t["same_output"] and numpy.asarray(before).shape == numpy.asarray(after).shape
+                                        and numpy.array_equal(before, after))
             ids = ArrIds()
             for i, o in fitted_objects(pipe).items():
                 dbg = getattr(o, "_debug", None)
@@ -280,22 +289,28 @@ def run(ctx):
         hk = zlib.crc32(repr(key).encode())
         if (hk // 7 + ctx.seed) % stride:
             continue
-        variant = hk % 6
-        try:
-            t = observe(len(traces) + 1, case, variant)
-        except Exception as e:
-            import traceback
-            tb = traceback.extract_tb(e.__traceback__)
-            lib = [f for f in tb if "/mlinsights/" in f.filename]
-            if lib:
-                ctx.violation("CallSucceeds", lib[-1].name, type(e).__name__, repr(e)[:200], case=case)
-            else:
-                ctx.skipped.append("AST %s not realisable as a scikit-learn pipeline: %s" % ("/".join(case["kind"]), repr(e)[:80]))
-            continue
-        if t is None:
-            continue
-        ctx.case(key, nontrivial=len(case["kind"]) >= 3, sample=dict(kind="s2c", ast=case["kind"], parent=case["parent"], enum=t["enum"][:4]))
-        traces.append(t)
+        variant = hk % 48
+        todo = [(variant, None)]
+        if "union" in case["kind"] or "colt" in case["kind"]:
+            # unions / column transformers fed by ONE (named) column, under every kind of schema in the thorough tier
+            todo += [(variant + 1 + j, 1) for j in range(3 if thorough else 1)]
+        for variant, width in todo:
+            try:
+                t = observe(len(traces) + 1, case, variant, width)
+            except Exception as e:
+                import traceback
+                tb = traceback.extract_tb(e.__traceback__)
+                lib = [f for f in tb if "/mlinsights/" in f.filename]
+                if lib:
+                    ctx.violation("CallSucceeds", lib[-1].name, type(e).__name__, repr(e)[:200], case=case)
+                else:
+                    ctx.skipped.append("AST %s not realisable as a scikit-learn pipeline: %s" % ("/".join(case["kind"]), repr(e)[:80]))
+                continue
+            if t is None:
+                continue
+            ctx.case(key + (variant, width), nontrivial=len(case["kind"]) >= 3,
+                     sample=dict(kind="s2c", ast=case["kind"], parent=case["parent"], enum=t["enum"][:4]))
+            traces.append(t)
     verdicts, st = tlc.validate("PipelineTrace", "PipelineTrace.cfg", traces, timeout=3000, heap="6g")
     ctx.states += st["states"]
     ctx.transitions += st["transitions"]
